@@ -259,6 +259,7 @@ class FG:
         self.ntmp = 0
         self.X, self.W, self.FR, self.DR = [], [], [], []
         self.O = []                 # opaque registers (see opaque())
+        self.FN = {'f': [], 'd': []}  # registers holding NaN / infinity
         self.P = []                 # PtrInfo usable in the whole function
         self.ptr_args = ptr_args    # [(regname, size, writable)]
         self.exit_label = None
@@ -406,12 +407,33 @@ class FG:
             self.emit(prec + op, self.fdst(prec), a, b)
         self.p.features.add('fp:' + prec + op)
 
+    def special_fp(self, prec, a, b):
+        if self.FN[prec] and self.rng.random() < 0.5:
+            v = R(self.FN[prec][0] if self.rng.random() < 0.7 else self.FN[prec][1])
+            return (v, b) if self.rng.random() < 0.5 else (a, v)
+        return a, b
+
     def g_fcmp(self):
         r = self.rng
         prec = r.choice(['f', 'd'])
         op = prec + r.choice(['eq', 'ne', 'lt', 'le', 'gt', 'ge'])
         a, b = self.fsrc(prec), self.fsrc(prec)
-        self.emit(op, self.dst64(), a, b)
+        a, b = self.special_fp(prec, a, b)
+        if r.random() < 0.5:
+            self.emit(op, self.dst64(), a, b)
+        else:
+            # comparison result consumed by bt/bf right away (combined into one FP branch at -O2)
+            t = self.new_local('fc')
+            lt, lj = self.label(), self.label()
+            self.emit(op, R(t), a, b)
+            self.emit(r.choice(['bt', 'bf', 'bts', 'bfs']), lt, R(t))
+            flag = self.X_()
+            self.emit('mov', flag, Imm(r.randrange(0, 100)))
+            self.emit('jmp', lj)
+            self.place(lt)
+            self.emit('mov', flag, Imm(r.randrange(100, 200)))
+            self.place(lj)
+            self.p.features.add('fp:cmp+bt/bf')
         self.p.features.add('fp:cmp')
 
     def g_fconv(self):
@@ -718,9 +740,14 @@ class FG:
                 ops.append(Imm(r.choice([0, 1, 2, 3])))
             else:
                 ops.append(self.arg_for(t))
-        code = 'inline' if r.random() < 0.4 else 'call'
+        code = 'inline' if r.random() < self.opts.get('p_inline', 0.4) else 'call'
         self.emit(code, *ops)
         self.p.features.add(code + ':mir')
+        tops = [q for q in self.P if q.reg.startswith('ta') and q.size >= 8]
+        if tops and r.random() < self.opts.get('p_alloca_after_call', 0.2):
+            # the caller's own top-level block must survive the (possibly inlined) call
+            q = r.choice(tops)
+            self.emit('xor', self.X_(), self.X_(), Mem('i64', r.randrange(0, q.size // 8) * 8, q.reg))
         if len(c['res']) > 1: self.p.features.add('call:multi-result')
 
     def g_self_call(self):
@@ -746,10 +773,10 @@ class FG:
         r = self.rng
         kinds = [(self.g_alu64, 14), (self.g_alu32, 12), (self.g_neg, 2), (self.g_ext, 6), (self.g_cmp, 7),
                  (self.g_shift, 7), (self.g_div, 7), (self.g_load, 8), (self.g_store, 9), (self.g_mov, 5),
-                 (self.g_ovf, 4), (self.g_local_alloca, 2), (self.g_counted_loop, 3), (self.g_call_ext, 3),
+                 (self.g_ovf, 2), (self.g_local_alloca, 2), (self.g_counted_loop, 3), (self.g_call_ext, 3),
                  (self.g_call_mir, self.opts.get('w_call', 4)), (self.g_self_call, 1)]
         if self.opts.get('fp', True) and self.FR:
-            kinds += [(self.g_farith, 8), (self.g_fcmp, 3), (self.g_fconv, 4), (self.g_fmov, 4), (self.g_fbranch, 2)]
+            kinds += [(self.g_farith, 8), (self.g_fcmp, 6), (self.g_fconv, 4), (self.g_fmov, 4), (self.g_fbranch, 2)]
         tot = sum(w for _, w in kinds)
         for _ in range(n):
             x = r.randrange(tot)
@@ -779,6 +806,7 @@ class FG:
             t = self.new_local('fo', prec)
             self.emit('i2' + prec, R(t), R(r.choice(self.O)))
             a = R(t)
+        a, b = self.special_fp(prec, a, b)
         self.emit(op, lt, a, b)
         flag = self.X_()
         self.emit('mov', flag, Imm(r.randrange(0, 100)))
@@ -845,7 +873,8 @@ class FG:
         int_args = [rn for t, rn in f.args if t in INT_TYPES and rn not in [p[0] for p in self.ptr_args]
                     and not (self.selfinfo and rn == self.selfinfo['depth_reg'])]
         # entry: top-level allocas (adjacent: consolidated by simplify), then initialise every register
-        ntop = r.choice([0, 0, 1, 2, 3]) if self.opts.get('alloca', True) else 0
+        ntop = (r.choice([0, 0, 1, 2, 3]) if r.random() >= self.opts.get('p_top_alloca', 0.0) else r.choice([1, 1, 2, 3])) \
+            if self.opts.get('alloca', True) else 0
         tops = []
         for i in range(ntop):
             n = r.choice([1, 2, 3, 4, 8, 12, 16, 24, 40, 64, 100])
@@ -875,6 +904,20 @@ class FG:
             if dargs and r.random() < 0.5: self.emit('dmov', R(n), R(r.choice(dargs)))
             elif int_args and r.random() < 0.3: self.emit('i2d', R(n), R(r.choice(int_args)))
             else: self.emit('dmov', R(n), self.fimm('d'))
+        # special FP values that cannot be written as constants: NaN and infinities, computed from an
+        # unknown zero; they are only compared / branched on (a produced NaN may not be stored)
+        self.FN = {'f': [], 'd': []}
+        if self.FR and int_args and r.random() < self.opts.get('p_nan', 0.8):
+            for prec in ('f', 'd'):
+                z = self.new_local('fz', prec)
+                self.emit('i2' + prec, R(z), R(r.choice(int_args)))
+                self.emit(prec + 'sub', R(z), R(z), R(z))
+                nn, inf = self.new_local('fnan', prec), self.new_local('finf', prec)
+                self.emit(prec + 'div', R(nn), R(z), R(z))
+                self.emit(prec + 'div', R(inf), FImm(f32bits(r.choice([1.0, -1.0]))) if prec == 'f' else
+                          DImm(f64bits(r.choice([1.0, -1.0]))), R(z))
+                self.FN[prec] = [nn, inf]
+                self.p.features.add('fp:nan-inf-operands')
         for i in range(r.randrange(1, 4)):
             on = 'o%d' % i
             f.locals.append(('i64', on))
@@ -970,7 +1013,7 @@ class FG:
                 self.emit('jmpi', R(la))
             elif k < 0.66 and not last:
                 self.cond_branch(lret)    # early exit
-            elif k < 0.74 and not last and f.res is not None:
+            elif k < 0.66 + self.opts.get('p_midret', 0.08) and not last and f.res is not None:
                 # an extra return in the middle (return merging), guarded so later blocks stay reachable
                 lskip = self.label()
                 self.cond_branch(lskip)
@@ -1020,7 +1063,8 @@ def gen_program(rng, opts=None):
             nres = rng.choice([0, 1, 1, 1, 2, 2, 3])
             res, ni, nfp = [], 0, 0
             for _ in range(nres):      # x86-64: at most two integer and two FP results
-                t = rng.choice(INT_TYPES + ['i64', 'i64'] + (['f', 'd', 'd'] if fp else []))
+                t = rng.choice(NARROW) if rng.random() < o.get('p_narrow_res', 0.0) else \
+                    rng.choice(INT_TYPES + ['i64', 'i64'] + (['f', 'd', 'd'] if fp else []))
                 if t in ('f', 'd'):
                     if nfp == 2: continue
                     nfp += 1
@@ -1063,6 +1107,9 @@ def gen_program(rng, opts=None):
         big = rng.random() < 0.25
         nblocks = rng.choice([1, 2, 3, 4, 6]) if not big else rng.choice([6, 9, 12])
         blen = rng.choice([2, 4, 6]) if not big else rng.choice([6, 10])
+        if rng.random() < o.get('p_small', 0.0):
+            # small call-dense functions: mostly executed, mostly below the inlining thresholds
+            nblocks, blen = rng.choice([1, 1, 2, 3]), rng.choice([2, 3, 4])
         f = g.generate(nblocks, blen)
         labbase = g.nlab
         p.add_item(('func', f))
@@ -1195,6 +1242,12 @@ def parse_text(text, args=None, oracle=None, regions=None):
                 if curtok.strip(): ops.append(curtok)
             cur.body.append(Insn(op, [parse_op(o, names) for o in ops]))
     p.entry = 'main'
+    if p.forward_order:
+        # Program.text prints the functions in reverse item order after a `forward` line: store them
+        # reversed so that the text comes out in the order it was written
+        funcs = [it for it in p.items if it[0] == 'func'][::-1]
+        p.items = [it for it in p.items if it[0] != 'func'] + funcs
+        p.index = {(it[1] if it[0] != 'func' else it[1].name): i for i, it in enumerate(p.items)}
     main = p.items[p.index['main']][1]
     if regions is None:
         regions = [(REGION_BASE, 64, True, bytes(range(1, 65))), (REGION_BASE + 0x100000, 32, True, bytes([0x22] * 32)),
